@@ -34,6 +34,7 @@ fn lit_text(l: &str, salt: usize) -> &'static str {
         "bytestr" => ["b\"x\"", "b'x'"][salt % 2],
         "path" => ["foo::bar", "x"][salt % 2],
         "binary" => ["x + 1", "a && b"][salt % 2],
+        "paren" => ["(\"x\")", "(true)", "('c')", "(1)", "(a + b)"][salt % 5],
         _ => panic!("lit {}", l),
     }
 }
